@@ -41,12 +41,14 @@ VARIABLES
   crashed, cimg, \* terminal crash state and its image
   kf,      \* known-finding deviations taken on this path
   lastc,   \* the call that has just returned (for the Ret predicates)
-  cinfo    \* where/how the crash happened (hidden by the VIEW: equal images are checked once)
+  cinfo,   \* where/how the crash happened (hidden by the VIEW: equal images are checked once)
+  nf,      \* last sampled value of need_flush_meta() (1/0; -1 = not sampled)
+  viol     \* violations found along this path: sequence of <<property, line, detail>>
 
 vars == <<l, sil, ri, vis, dur, pend, fsn, rq, cur, kind, calls, sync, cand,
-          crashed, cimg, kf, lastc, cinfo>>
+          crashed, cimg, kf, lastc, cinfo, nf, viol>>
 View == <<l, sil, ri, vis, dur, pend, fsn, rq, cur, kind, calls, sync, cand,
-          crashed, cimg, kf, lastc>>
+          crashed, cimg, kf, lastc, nf, IF crashed THEN <<>> ELSE viol>>
 
 R0 == Rec[ri]
 G  == R0.g
@@ -148,13 +150,13 @@ Init ==
     /\ calls = {}
     /\ sync = [have |-> FALSE, val |-> <<>>, later |-> <<>>]
     /\ cand = NoCand
-    /\ crashed = FALSE /\ cimg = <<>> /\ kf = {} /\ lastc = NoCall /\ cinfo = <<>>
+    /\ crashed = FALSE /\ cimg = <<>> /\ kf = {} /\ lastc = NoCall /\ cinfo = <<>> /\ nf = -1 /\ viol = <<>>
 
 ---------------------------------------------------------------------------
 (* Backend events *)
 IsEv(e) == ~crashed /\ l <= N /\ Ev.e = e
 Consume == l' = l + 1 /\ sil' = FALSE
-NoRet == lastc' = NoCall /\ cinfo' = cinfo
+NoRet == lastc' = NoCall /\ cinfo' = cinfo /\ nf' = nf
 
 Req ==
   /\ IsEv("Req") /\ Consume
@@ -242,7 +244,10 @@ Call ==
                 blocks |-> bs,
                 seen |-> [b \in (IF ev.op = "read" THEN bs ELSE {}) |-> cur[b]],
                 faulted |-> FALSE, modreq |-> FALSE,
-                pre |-> cand.st = "ok"]
+                pre |-> cand.st = "ok",
+                \* the file is in sync with the device: a flush_meta returned Ok
+                \* and nothing has been issued since
+                clean |-> cand.st = "ok" /\ cand.alone /\ calls = {}]
      IN
      /\ calls' = calls \cup {c}
      /\ IF ev.op = "flush" THEN
@@ -326,12 +331,18 @@ LinOther ==
   /\ LET c0 == CallById(Ev.id) IN
      \E c \in calls :
        /\ c.id # c0.id /\ Mutating(c.op)
-       /\ LET ov == c.todo \cap c0.blocks IN
+       /\ LET ov == c.todo \cap c0.blocks
+              \* writes: any non-empty subset of the common blocks; discards act
+              \* on whole clusters: any non-empty set of the clusters they share
+              cand_sets ==
+                IF c.op = "discard"
+                THEN { { b \in c.todo : b \div G.bpc \in CS } :
+                       CS \in (SUBSET ClustersOf(ov)) \ {{}} }
+                ELSE (SUBSET ov) \ {{}}
+          IN
           /\ ov # {}
-          /\ \E S \in (SUBSET ov) \ {{}} :
-               \* discards act on whole clusters
-               /\ c.op = "discard" =>
-                    S = { b \in c.todo : b \div G.bpc \in ClustersOf(S) }
+          /\ \E S \in cand_sets :
+               /\ TRUE
                /\ \/ /\ cur' = ApplyCur(c, S, TRUE) /\ kind' = ApplyKind(c, S, TRUE)
                      /\ kf' = kf
                   \/ /\ DevDiscardApplies(c, S)
@@ -353,7 +364,7 @@ Ret ==
            \* was in flight  (C01 / C06)
            \* (concurrent runs: enabling condition = search over linearization
            \*  points; sequential runs: reported by Inv_C01 with the details)
-           /\ (ok /\ R0.par = 1) => \A i \in 1 .. Min(Len(ev.toks), Cardinality(c.blocks)) :
+           /\ (ok /\ R0.par = 1 /\ ~HasSub(Mode, "diag")) => \A i \in 1 .. Min(Len(ev.toks), Cardinality(c.blocks)) :
                       LET b == c.gb + i - 1 IN
                       b \in DOMAIN c.seen =>
                         (ev.toks[i] \in c.seen[b] \/ Unknown \in c.seen[b])
@@ -382,7 +393,7 @@ Ret ==
                                  ELSE IF sync.have THEN sync.later[b] ELSE {}]]
         ELSE sync' = sync
      /\ lastc' = c
-  /\ UNCHANGED <<ri, vis, dur, pend, fsn, rq, crashed, cimg, cinfo>>
+  /\ UNCHANGED <<ri, vis, dur, pend, fsn, rq, crashed, cimg, cinfo, nf>>
 
 \* the device is dropped: whatever was not flushed is gone; from here on the
 \* file alone determines the guest content (the specification's own reader)
@@ -394,19 +405,18 @@ Drop ==
                 LET k == F!EKind(F!L2E(vis, G, gc)) IN
                 IF k = "u" /\ R0.back = 1 /\ \E b \in Blocks(gc * G.bpc, G.bpc) : R0.btok[b + 1] # 0
                 THEN "b" ELSE k]
-  /\ cand' = NoCand /\ NoRet
+  /\ cand' = NoCand /\ lastc' = NoCall /\ cinfo' = cinfo /\ nf' = -1
   /\ UNCHANGED <<ri, vis, dur, pend, fsn, rq, calls, sync, crashed, cimg, kf>>
 
 SkipKinds == {"Open", "OpenRes", "Note", "FaultPlan", "FaultAll", "FaultsOff",
-              "Recovered", "Stuck", "Panic", "Flag"}
+              "Recovered", "Stuck", "Panic"}
+\* the harness sampled need_flush_meta() (recorded when the value changes)
+Flag ==
+  /\ IsEv("Flag") /\ Consume
+  /\ nf' = Ev.nf /\ lastc' = NoCall /\ cinfo' = cinfo
+  /\ UNCHANGED <<ri, vis, dur, pend, fsn, rq, cur, kind, calls, sync, cand, crashed, cimg, kf>>
 Skip ==
   /\ ~crashed /\ l <= N /\ Ev.e \in SkipKinds /\ Consume /\ NoRet
-  /\ UNCHANGED <<ri, vis, dur, pend, fsn, rq, cur, kind, calls, sync, cand, crashed, cimg, kf>>
-
-\* the run is over: report the accepting path
-End ==
-  /\ IsEv("End") /\ Consume
-  /\ PrintT("@@" \o ToJson(<<"ACCEPT", R0.name, ri, kf>>)) /\ NoRet
   /\ UNCHANGED <<ri, vis, dur, pend, fsn, rq, cur, kind, calls, sync, cand, crashed, cimg, kf>>
 
 ---------------------------------------------------------------------------
@@ -450,12 +460,10 @@ Crash ==
   /\ crashed' = TRUE /\ sil' = TRUE
   \* canonical terminal state: equal images are checked once
   /\ l' = 0 /\ pend' = <<>> /\ fsn' = {} /\ rq' = {} /\ calls' = {}
-  /\ cand' = NoCand /\ vis' = <<>> /\ dur' = <<>> /\ lastc' = NoCall
+  /\ cand' = NoCand /\ vis' = <<>> /\ dur' = <<>> /\ lastc' = NoCall /\ nf' = nf
   /\ UNCHANGED <<ri, cur, kind, sync, kf>>
 
-Next == Req \/ Done \/ Call \/ LinOther \/ Ret \/ Drop \/ Skip \/ End \/ Crash
 
-Spec == Init /\ [][Next]_vars
 
 ---------------------------------------------------------------------------
 (* The properties, as state predicates.  "Last" is the line just consumed. *)
@@ -470,7 +478,26 @@ FlushedNow == Fresh /\ Last.e = "Ret" /\ Last.res = "ok" /\ cand.st = "ok"
 Inv_C02 == FlushedNow =>
   \A gb \in GBs : GuestVis(gb) \in cur[gb] \/ Unknown \in cur[gb]
 
-Inv_C03 == FlushedNow => F!WellFormed(vis, G) /\ F!Exact(vis, G)
+\* a backend fault was injected earlier in this run (then leaks are allowed)
+HadFault == \E i \in ri .. l - 1 : Rec[i].e = "Done" /\ Rec[i].inj = 1
+
+Inv_C03 == (FlushedNow /\ ~HadFault) => F!WellFormed(vis, G) /\ F!Exact(vis, G)
+
+\* C17b: after faults, a flush_meta that returns Ok leaves a file in which
+\* every acknowledged write is readable and nothing is under-counted
+Inv_C17 == (FlushedNow /\ HadFault) =>
+  /\ F!Safe(vis, G)
+  /\ \A gb \in GBs : GuestVis(gb) \in cur[gb] \/ Unknown \in cur[gb]
+
+\* C18: need_flush_meta() = false at a quiescent point means the file already
+\* reflects every completed operation
+Quiescent == Fresh /\ calls = {} /\ rq = {}
+\* (evaluated where the file or the model can have changed: the flag was just
+\*  sampled clear, or a call other than a read has just returned)
+Inv_C18 == (Quiescent /\ nf = 0
+            /\ (Last.e = "Flag" \/ (Last.e = "Ret" /\ lastc.id = Last.id /\ lastc.op # "read"))) =>
+  /\ \A gb \in GBs : GuestVis(gb) \in cur[gb] \/ Unknown \in cur[gb]
+  /\ F!TablesOK(vis, G) /\ F!Undercounted(vis, G) = {}
 
 \* C04: every crash state is a safe image
 Inv_C04 == crashed => F!Safe(cimg, G)
@@ -525,7 +552,10 @@ Inv_C13b == (RetNow /\ ArgsValid(lastc) /\ ~lastc.faulted) =>
 FullRead == lastc.op = "read" /\ ReadValid(lastc.cls) /\ lastc.cls.end = "le"
 Inv_C01len == (RetNow /\ FullRead /\ ~lastc.faulted /\ Last.res = "ok") => Last.n = lastc.n
 \* a call with valid arguments fails only because of a backend error (C07)
-Inv_C07b == (RetNow /\ ArgsValid(lastc) /\ ~lastc.faulted) => Last.res = "ok"
+Inv_C07b == (RetNow /\ ArgsValid(lastc) /\ ~lastc.faulted /\ lastc.op # "check") => Last.res = "ok"
+\* C20: check() accepts every consistent image and reports every leak
+Inv_C20 == (RetNow /\ lastc.op = "check" /\ lastc.clean /\ ~lastc.faulted /\ F!TablesOK(vis, G)) =>
+             (Last.res = "ok" <=> (F!Leaked(vis, G) = {} /\ F!Undercounted(vis, G) = {}))
 
 ---------------------------------------------------------------------------
 (* Audit: evaluates every property on every distinct state, reports        *)
@@ -562,29 +592,56 @@ InitialOK ==
      /\ F!WellFormed(vis, G) /\ F!Exact(vis, G)
      /\ \A gb \in GBs : GuestVis(gb) = R0.init[gb + 1]
 
+\* violations found in the state just reached; they are accumulated along the
+\* path (viol) and reported with the ACCEPT line of the run, because in a run
+\* with concurrent calls a path is only one guess at the linearization order:
+\* what counts is an accepting path
+StepViols ==
+  (IF Inv_C01 THEN <<>> ELSE << <<"C01", l - 1, C01Detail>> >>)
+  \o (IF Inv_C02 THEN <<>> ELSE << <<"C02", l - 1, <<"blocks", BadBlocks>>>> >>)
+  \o (IF Inv_C03 THEN <<>> ELSE << <<"C03", l - 1, C03Detail>> >>)
+  \o (IF Inv_C17 THEN <<>> ELSE << <<"C17", l - 1, <<"after-recovery", IF F!TablesOK(vis, G) THEN F!Undercounted(vis, G) ELSE {-1}, BadBlocks>>>> >>)
+  \o (IF Inv_C18 THEN <<>> ELSE << <<"C18", l - 1, <<"flag clear but file stale", BadBlocks, IF F!TablesOK(vis, G) THEN F!Undercounted(vis, G) ELSE {-1}>>>> >>)
+  \o (IF Inv_C10 THEN <<>> ELSE << <<"C10", l - 1, <<Last.dev, Last.k, Last.blk>>>> >>)
+  \o (IF Inv_C16 THEN <<>> ELSE << <<"C16", l - 1, <<Last.k, Last.blk, Last.al>>>> >>)
+  \o (IF Inv_C07a THEN <<>> ELSE << <<"C07", l - 1, <<Last.e, Last.msg>>>> >>)
+  \o (IF Inv_Open THEN <<>> ELSE << <<"OPEN", l - 1, <<Last.res, Last.msg>>>> >>)
+  \o (IF Inv_C13 THEN <<>> ELSE << <<"C13", l - 1, <<lastc.op, Last.res, lastc.cls, lastc.modreq>>>> >>)
+  \o (IF (Inv_C13b \/ FullRead) THEN <<>> ELSE << <<"C13", l - 1, <<lastc.op, Last.res, Last.n, lastc.cls>>>> >>)
+  \o (IF Inv_C01len THEN <<>> ELSE << <<"C01", l - 1, <<"short read", lastc.gb, lastc.n, Last.n>>>> >>)
+  \o (IF Inv_C07b THEN <<>> ELSE << <<"C07", l - 1, <<lastc.op, Last.res, Last.msg>>>> >>)
+  \o (IF Inv_C20 THEN <<>> ELSE << <<"C20", l - 1, <<"check", Last.res, F!Leaked(vis, G), F!Undercounted(vis, G)>>>> >>)
+
+\* Audit (a CONSTRAINT, evaluated once per distinct state): progress
+\* registers, the tool self-check, and the crash-image properties, which are
+\* reported at once (a crash state is terminal)
 Audit ==
   /\ TLCSet(ri, Max(TLCGet(ri), IF crashed THEN 0 ELSE l))
   /\ ~InitialOK => Out(<<"TOOLERR", R0.name, ri, "initial image: builder/decoder/spec disagree",
                           IF F!TablesOK(vis, G) THEN <<F!Undercounted(vis, G), F!Leaked(vis, G)>> ELSE <<"tables">>,
                           { gb \in GBs : GuestVis(gb) # R0.init[gb + 1] }>>)
-  /\ ~Inv_C01 => Report("C01", C01Detail)
-  /\ ~Inv_C02 => Report("C02", <<"blocks", BadBlocks>>)
-  /\ ~Inv_C03 => Report("C03", C03Detail)
   /\ ~Inv_C04 => Report("C04", C04Detail)
   /\ ~Inv_C05 => Report("C05", <<"blocks", { <<gb, GuestCrash(gb), sync.val[gb], sync.later[gb]>> : gb \in C05Bad }, cinfo>>)
-  /\ ~Inv_C10 => Report("C10", <<Last.dev, Last.k, Last.blk>>)
-  /\ ~Inv_C16 => Report("C16", <<Last.k, Last.blk, Last.al>>)
-  /\ ~Inv_C07a => Report("C07", <<Last.e, Last.msg>>)
-  /\ ~Inv_Open => Report("OPEN", <<Last.res, Last.msg>>)
-  /\ ~Inv_C13 => Report("C13", <<lastc.op, Last.res, lastc.cls, lastc.modreq>>)
-  /\ (~Inv_C13b /\ ~FullRead) => Report("C13", <<lastc.op, Last.res, Last.n, lastc.cls>>)
-  /\ ~Inv_C01len => Report("C01", <<"short read", lastc.gb, lastc.n, Last.n>>)
-  /\ ~Inv_C07b => Report("C07", <<lastc.op, Last.res, Last.msg>>)
   /\ crashed => TLCSet(999999, TLCGet(999999) + 1)
   \* crash images on which Inv_C05 says something: a sync point exists and
   \* some synced block holds data
   /\ (crashed /\ sync.have /\ \E gb \in GBs : sync.val[gb] \notin {{0}, {Unknown}})
        => TLCSet(999998, TLCGet(999998) + 1)
+
+\* the run is over: report the accepting path
+End ==
+  /\ IsEv("End") /\ Consume
+  /\ PrintT("@@" \o ToJson(<<"ACCEPT", R0.name, ri, kf, viol \o StepViols>>)) /\ NoRet
+  /\ UNCHANGED <<ri, vis, dur, pend, fsn, rq, cur, kind, calls, sync, cand, crashed, cimg, kf>>
+
+
+Step == Req \/ Done \/ Call \/ LinOther \/ Ret \/ Drop \/ Skip \/ Flag \/ End \/ Crash
+
+\* (the violations of the state being left are appended: evaluating StepViols
+\*  on the current state keeps TLC's caching of the trace constants effective)
+Next == Step /\ viol' = viol \o StepViols
+
+Spec == Init /\ [][Next]_vars
 
 \* registers: furthest line per run, number of distinct crash images
 ASSUME \A i \in RunStarts : TLCSet(i, i)
